@@ -430,18 +430,25 @@ impl Mk {
         (2..self.g.clusters + 2).filter(|&c| self.is_free(c)).collect()
     }
 
-    /// Allocate every free cluster except `keep_free` to one file BALLAST.BIN in `d`.
+    /// Take every free cluster except `keep_free` out of circulation by marking it BAD in the FAT (a legal way for
+    /// a volume to be nearly full that needs no 65 000-cluster chain to be walked after every call). The first 40
+    /// clusters are given to a file BALLAST.BIN instead so that an ordinary long chain exists too.
     pub fn ballast(&mut self, d: Dir, keep_free: &[u32]) {
-        let chain: Vec<u32> = self
+        let all: Vec<u32> = self
             .free_clusters()
             .into_iter()
             .filter(|c| !keep_free.contains(c))
             .collect();
-        if chain.is_empty() {
+        if all.is_empty() {
             return;
         }
+        let (chain, bad) = all.split_at(all.len().min(40));
+        let bad_mark = if self.g.fat32 { 0x0FFF_FFF7 } else { 0xFFF7 };
+        for &c in bad {
+            self.set_fat(c, bad_mark);
+        }
         let size = (chain.len() as u64 * self.g.cluster_bytes() as u64).min(u32::MAX as u64) as u32;
-        self.file_nodata(d, "BALLAST.BIN", 0x01, &chain, size);
+        self.file_nodata(d, "BALLAST.BIN", 0x01, chain, size);
     }
 
     pub fn finish(self, fsinfo: FsInfo) -> BaseImage {
